@@ -64,9 +64,11 @@ def cmd_confirm(sid):
         tail = lines[-1] if lines else ""
         failed = [l.split()[1] for l in lines if l.startswith("FAILED")]
         rerun = {}
-        for nodeid in failed:      # the suite is order-dependent under xdist even on the pristine tree: re-run alone
-            r, o = sh(f"cd {wt} && /venv/bin/python -m pytest -q -p no:cacheprovider --timeout=900 '{nodeid}' 2>&1 | tail -1", env=ENV)
-            rerun[nodeid] = o.strip()
+        for nodeid in failed:      # the suite is order-dependent under xdist even on the pristine snapshot
+            f = nodeid.split("::")[0]  # (test_multiplication_with_scalar relies on earlier parametrisations): re-run the FILE serially
+            if f not in rerun:
+                r, o = sh(f"cd {wt} && /venv/bin/python -m pytest -q -p no:cacheprovider --timeout=900 '{f}' 2>&1 | tail -1", env=ENV)
+                rerun[f] = o.strip()
         only_flaky = all(" passed" in v and "failed" not in v.replace("xfailed", "") for v in rerun.values())
         m = re.search(r"(\d+) passed", tail)
         npass = int(m.group(1)) if m else 0
